@@ -65,6 +65,11 @@ def install(ex, gd, scalar_of_big=None, scalar_of_fr=None):
     I["(*%s.PointAffine).Neg" % GB] = unop(2, gd.neg)
     I["(*%s.PointAffine).Set" % GB] = unop(2, lambda v: v)
 
+    def coord_set(ex_, args, ins):
+        ex_.store_to(args[0], ex_.load(args[1], GFR), GFR)
+        return (args[0],)
+    I["(*%s).Set" % GFR] = coord_set
+
     def scalarmult(ex_, args, ins):
         z, a, big = args
         if scalar_of_big is None:
